@@ -29,7 +29,7 @@ RULE = ("a scenario = (continuum, dissimilarity, sampler, mode, n_samples, preci
         "for the fast mode to record a finite window, one has all annotators identical (observed disorder 0), one is crowded "
         "(4-5 annotators with two long units each: the shuffle sampler runs out of free pivot zones), one asks for a precision "
         "that triggers a second batch after a first batch of 5-30 samples (worker counts 1,2,3,4,5,8,16), one has tied optimal alignments that differ in "
-        "gamma-cat / gamma-k; plus plain repetition in the same process; results must be bit-identical.  A set of "
+        "gamma-cat / gamma-k, one has units without label; plus plain repetition in the same process; results must be bit-identical.  A set of "
         "common scenarios is also run by every worker process, each under a different PYTHONHASHSEED (0, 1, 2, 3, "
         "random...) and the digests are compared across processes. non-trivial = scenario with >= 2 jobs; distinct = "
         "distinct (scenario, schedule)")
@@ -209,6 +209,17 @@ def gen_tied_scenario(rng):
             "mode": rng.choice(["exact", "exact", "soft"]), "n_samples": rng.choice([3, 5]), "precision": None, "np_seed": rng.randrange(2 ** 31)}
 
 
+def gen_unlabelled_scenario(rng):
+    """Units without label (all or some of them), the default combined dissimilarity, the shuffle sampler (the statistical one is
+    stated for labelled references)."""
+    n = rng.choice([2, 3, 3])
+    cspec = cases.gen_continuum(rng, n_annot=n, max_units=5, allow_empty=False, labels=cases.LABELS_SMALL, p_none=rng.choice([0.4, 1.0]),
+                                family=rng.choice(["grid", "dyadic", "longoverlap"]))
+    return {"continuum": cspec, "dissim": {"kind": "combined", "alpha": 1.0, "beta": 1.0, "delta": 1.0, "pos": None, "cat": None},
+            "ground_truth": None, "ground_truth_as": "list", "sampler": rng.choice(["shuffle_int", "shuffle_float"]),
+            "mode": rng.choice(["exact", "soft", "fast"]), "n_samples": rng.choice([3, 6]), "precision": None, "np_seed": rng.randrange(2 ** 31)}
+
+
 def gen_scenario(rng, dspecs):
     dspec = rng.choice(dspecs)
     labels = cases.dissim_labels(dspec) or cases.LABELS_SMALL
@@ -360,14 +371,14 @@ def run(ctx):
     dspecs.append({"kind": "combined", "alpha": 3.0, "beta": 1.0, "delta": 1.0, "pos": None, "cat": None})
     import resource
     for i in range(ctx.scale(14, 160)):
-        if i >= 5 and ctx.out_of_time():      # the first scenario of each special kind runs whatever the budget
+        if i >= 6 and ctx.out_of_time():      # the first scenario of each special kind runs whatever the budget
             break
         if resource.getrusage(resource.RUSAGE_SELF).ru_maxrss > 3_500_000:     # kB: compiled kernels are never freed
             ctx.observe("stopped_early", "memory: compiled kernels of the fresh dissimilarity objects")
             break
-        kind = ["fast-windowed-size", "identical-annotators", "crowded", "second-batch", "tied-optima", "small", "small", "small"][i % 8]
+        kind = ["fast-windowed-size", "identical-annotators", "crowded", "second-batch", "tied-optima", "unlabelled-units", "small", "small", "small"][i % 9]
         sc = {"fast-windowed-size": lambda: gen_windowed_scenario(rng, ctx.tier == "quick"), "identical-annotators": lambda: gen_identical_scenario(rng),
-              "tied-optima": lambda: gen_tied_scenario(rng),
+              "tied-optima": lambda: gen_tied_scenario(rng), "unlabelled-units": lambda: gen_unlabelled_scenario(rng),
               "crowded": lambda: gen_crowded_scenario(rng), "second-batch": lambda: gen_second_batch_scenario(rng),
               "small": lambda: gen_scenario(rng, dspecs)}[kind]()
         ctx.observe("scenario_kind", kind)
